@@ -222,6 +222,19 @@ def sweeps(col):
             lines = [ln for ln in base if not ln.startswith('createType')]
             lines = lines[:1] + filler[:k] + lines[1:]
             run('vmdk', dict(lines=lines, footer=footer), 'vmdk-deep')
+        # repeated createType lines: the first one is what qemu reads
+        good = [ln for ln in base if ln.startswith('createType')][0]
+        for bad_t in ('monolithicFlat', 'vmfs', 'custom'):
+            bad = 'createType="%s"' % bad_t
+            rest = [ln for ln in base if not ln.startswith('createType')]
+            for first, second, where in ((bad, good, 'end'),
+                                         (bad, good, 'next'),
+                                         (good, bad, 'end')):
+                if where == 'next':
+                    lines = rest[:1] + [first, second] + rest[1:]
+                else:
+                    lines = rest[:1] + [first] + rest[1:] + [second]
+                run('vmdk', dict(lines=lines, footer=footer), 'vmdk-type')
         lines = [ln for ln in base if not ln.startswith('RW ')]
         run('vmdk', dict(lines=lines, footer=footer), 'vmdk-noextent')
         for ver in (0, 1, 2, 3, 4, 2 ** 32 - 1):
